@@ -89,6 +89,9 @@ SHAPES = {
     "else_semi_glued": (["\tif (a)", "\t\tb = 1;", "\telse;", "\tb = 2;"], 4),
     "while_empty": (["\twhile (a--) ;", "\tb = 3;"], 2),
     "while_empty_nextline": (["\twhile (a--)", "\t\t;", "\tb = 3;"], 2),
+    "while_empty_alone": (["\twhile (a--) ;"], 1),
+    "while_empty_nextline_alone": (["\twhile (a--)", "\t\t;"], 1),
+    "if_empty_nextline_alone": (["\tif (a)", "\t\t;"], 1),
     "return_void": (["\tif (a)", "\t\treturn ;"], 2),
     "else_if_chain": (["\tif (a)", "\t\tb = 1;", "\telse if (b)", "\t\tb = 2;", "\telse", "\t\tb = 3;"], 6),
     "nested_braces": (["\tif (a)", "\t{", "\t\twhile (b)", "\t\t{", "\t\t\tb--;", "\t\t}", "\t}"], 7),
